@@ -106,7 +106,10 @@ class P:
                 el = self.block_or_stmt()
             return ("if", c, th, el)
         if v in ("break", "return"):
-            self.eat(); self.eat(";")
+            self.eat()
+            if self.peek() != ";":
+                self.expr()
+            self.eat(";")
             return ("break",)
         if v == "assert":
             self.eat(); self.eat("(")
@@ -116,8 +119,8 @@ class P:
         if v == "{":
             return ("block", self.block_or_stmt())
         # declaration:  [const] float NAME = EXPR ;
-        if v in ("const", "float", "auto"):
-            while self.peek() in ("const", "float", "auto"):
+        if v in ("const", "float", "auto", "bool"):
+            while self.peek() in ("const", "float", "auto", "bool"):
                 self.eat()
             name = self.eat()
             self.eat("=")
@@ -151,9 +154,15 @@ class P:
         return e
 
     def land(self):
-        e = self.bxor()
+        e = self.bor()
         while self.peek() == "&&":
-            self.eat(); e = ("and", e, self.bxor())
+            self.eat(); e = ("and", e, self.bor())
+        return e
+
+    def bor(self):
+        e = self.bxor()
+        while self.peek() == "|":
+            self.eat(); e = ("bitor", e, self.bxor())
         return e
 
     def bxor(self):
@@ -785,8 +794,77 @@ def gen_array(repo):
         ["  | _ => 0", "  end.", ""])
 
 
+# --------------------------------------------------------------------------- topology-safety tests of the collapse
+AXIS = {"Axis::X": 1, "Axis::Y": 2, "Axis::Z": 4}
+
+
+def corner_index(e):
+    """a corner number: 0, Axis::X, Axis::X|Axis::Y, ..."""
+    if e[0] == "num":
+        return int(float(e[1]))
+    if e[0] == "id" and e[1] in AXIS:
+        return AXIS[e[1]]
+    if e[0] == "bitor":
+        return corner_index(e[1]) | corner_index(e[2])
+    raise ValueError("corner index " + str(e)[:60])
+
+
+def lm_expr(e, state, corner):
+    """boolean expression over cs[i]->cornerState(j) == corners[k]"""
+    k = e[0]
+    if k in ("and", "or"):
+        return f"({lm_expr(e[1], state, corner)} {'&&' if k == 'and' else '||'} {lm_expr(e[2], state, corner)})"
+    if k == "id":
+        return e[1]
+    if k == "cmp" and e[1] == "==":
+        l, r = e[2], e[3]
+        # cs[i]->cornerState(j)
+        if not (l[0] == "meth" and l[2] == "cornerState" and l[1][0] == "index" and l[1][1] == ("id", "cs")):
+            raise ValueError("left side of == " + str(l)[:80])
+        ci, cj = corner_index(l[1][2]), corner_index(l[3][0])
+        if not (r[0] == "index" and r[1] == ("id", "corners")):
+            raise ValueError("right side of == " + str(r)[:80])
+        return f"Bool.eqb ({state} (cs {ci}) {cj}) (k {corner_index(r[2])})"
+    raise ValueError("leafsAreManifold expression " + str(e)[:80])
+
+
+def gen_leafs(repo):
+    out = ["(* GENERATED by translate/gen_kernels.py from libfive/src/render/brep/dc/dc_tree2.cpp and dc_tree3.cpp",
+           "   (DCTree<N>::leafsAreManifold: the edge / face / centre tests of the topology-safe collapse) -- do not edit *)",
+           "From Coq Require Import ZArith Bool.", "From LF Require Import Render.QuadTree Render.OctTree.",
+           "Local Open Scope Z_scope.", ""]
+    for n, tree, state, name in ((2, "qtree", "corner_state", "leafs_manifold2_gen"), (3, "otree", "ocorner_state", "leafs_manifold3_gen")):
+        src = strip_comments(open(os.path.join(repo, f"libfive/src/render/brep/dc/dc_tree{n}.cpp")).read())
+        m = re.search(r"bool\s+DCTree<%d>::leafsAreManifold\s*\(" % n, src)
+        if not m:
+            raise ValueError(f"DCTree<{n}>::leafsAreManifold not found")
+        body = braces(src, src.index("{", src.index(")", m.end())))[1:-1]
+        p = P(lex(body))
+        stmts = p.stmts_until((None,))
+        lets, ret = [], None
+        for st in stmts:
+            if st[0] == "let":
+                lets.append((st[1], lm_expr(st[2], state, None)))
+            elif st[0] == "break":
+                continue
+            else:
+                raise ValueError("statement " + st[0])
+        # `return a && b ...;` is parsed by stmt() as break (return); recover its expression from the text
+        mret = re.search(r"return\s+(.*?);", body, flags=re.S)
+        if not mret:
+            raise ValueError("no return")
+        ret = lm_expr(P(lex(mret.group(1))).expr(), state, None)
+        out.append(f"Definition {name} (cs : Z -> {tree}) (k : Z -> bool) : bool :=")
+        for nm, t in lets:
+            out.append(f"  let {nm} := {t} in")
+        out.append(f"  {ret}.")
+        out.append("")
+    return "\n".join(out)
+
+
 def generators():
-    return {"DerivKernels_gen.v": gen_deriv, "IntervalDispatch_gen.v": gen_interval, "ArrayKernels_gen.v": gen_array}
+    return {"DerivKernels_gen.v": gen_deriv, "IntervalDispatch_gen.v": gen_interval, "ArrayKernels_gen.v": gen_array,
+            "LeafsManifold_gen.v": gen_leafs}
 
 
 if __name__ == "__main__":
